@@ -390,7 +390,30 @@ def _order(case):
     raise ValueError(f)
 
 
+def _minit(case):
+    kw = {k: case[k] for k in ("mu", "sigma", "beta", "kappa", "tau") if case.get(k) is not None}
+    if case.get("gamma"):
+        kw["gamma"] = gamma_of_tag(case["gamma"], case["kind"])
+    if case.get("limit") is not None:
+        kw["limit_sigma"] = case["limit"]
+    m = MODEL[case["kind"]](**kw)
+    if not case.get("gamma") and m.gamma(2.0, 3, 1.0, 9.0, [], 0) != 1.5:
+        raise RuntimeError("default gamma is not sqrt(ss)/c")
+    return state_obs(m)
+
+
+def _helpers(case):
+    m = MODEL[case["kind"]](beta=case["beta"])
+    teams = to_python(case["teams"])
+    ranks = to_python(case["ranks"])
+    tr = m._calculate_team_ratings(teams, ranks=ranks) if ranks is not None else m._calculate_team_ratings(teams)
+    c = m._c(tr)
+    return {"tr": [[hx(t.mu), hx(t.sigma_squared), int(t.rank)] for t in tr], "c": hx(c),
+            "sum_q": [hx(x) for x in m._sum_q(tr, c)], "a": [int(x) for x in m._a(tr)]}
+
+
 _RUN.update({
+    "minit": _simple(_minit), "helpers": _simple(_helpers),
     "gauss": _simple(_gauss), "crt": _simple(_crt), "mrating": _simple(_mrating),
     "dcopy": _simple(_dcopy), "cmp": _simple(_cmp), "order": _simple(_order),
     "ordinal": _simple(lambda c: hx(to_python(c["a"]).ordinal(c["z"]) if "z" in c else to_python(c["a"]).ordinal())),
